@@ -29,7 +29,7 @@ def main():
             'replay_cmd_template': '/venv/bin/python harness/replay.py {path}',
             'engine': 'coq-proof+correspondence',
             'level_claimed': {'category': 'proof', 'text': c['text'], 'design_ref': 'DESIGN.md section ' + c['ref']},
-            'level_note': c['note'],
+            'level_note': c['note'] + ('' if pid in ('C04', 'C05', 'C16') else ' The Q instance executed by the correspondence is provably the R-model on the shipped rationals (props/Prop_Transfer.v, one transfer theorem per model function, rebuilt with this check).'),
             'technique': c['tech'],
         })
     na = [{'property_id': p, 'reason': NA.get(p, 'check not built yet in this session (work in progress; see DESIGN.md build order)')}
